@@ -15,6 +15,7 @@ use std::process::ExitCode;
 static ALLOC: lasso_verif_harness::talloc::TrackingAlloc = lasso_verif_harness::talloc::TrackingAlloc;
 
 fn main() -> ExitCode {
+    lasso_verif_harness::talloc::trace_from_env();
     let args: Vec<String> = std::env::args().collect();
     if args.len() != 4 {
         eprintln!("usage: seqdriver <cases-file> <results-file> <monitors-file>");
